@@ -118,7 +118,7 @@ PROPS = {
     "C10": {
         "level": "proof",
         "lean_modules": ["RaftVerif.Properties.C10"],
-        "engines": [E4("snap", 40, 400), E4("crash", 30, 300), E4D("S9-snapshot-overlaps-apply,S20-snapshot-chunk-mixing,S20-mixed-chunks-unparsable")],
+        "engines": [E4("snap", 40, 400), E4("crash", 30, 300), E4D("S9-snapshot-overlaps-apply,S20-snapshot-chunk-mixing,S20-mixed-chunks-unparsable,snapshot-under-pending-membership-change")],
         "explanation": "PARTIAL proof. Machine-checked on the model (Model/Snapshot.lean, Properties/C10.lean): the apply step keeps 'state machine = fold of exactly the operation entries of the log up to the applied index' (configuration and no-op entries contribute nothing, every operation entry exactly once, in order); a snapshot whose label and content are read in one step is exact; the label is the applied index and the term of that entry. The real takeSnapshot reads the label and the content in two steps with the apply loop free to run in between: the property is FALSE of the code there (Lean witness C10_counterexample_apply_between_label_and_content; known finding S9, replayed on the real code as a directed schedule) and for snapshots received with mixed chunks (S20). Search and tie: " + CLUSTER_NOTE + "; every snapshot file that ever becomes visible on any node or crash image is parsed (the recording state machine serialises the list of applied indices with a hash chain) and compared with the committed sequence up to its label; violations with another pattern than the two known ones are reported.",
         "assumptions": ["known findings S9 (content-beyond-label) and S20 (content-behind-label), see known_findings.json",
                         "the state machine is the harness's recording machine (deterministic, serialises its full history)"],
@@ -126,7 +126,7 @@ PROPS = {
     "C11": {
         "level": "proof",
         "lean_modules": ["RaftVerif.Properties.C11"],
-        "engines": [E3_IS, E4("snap", 40, 400), E4D("S20-snapshot-chunk-mixing,S20-mixed-chunks-unparsable")],
+        "engines": [E3_IS, E4("snap", 40, 400), E4D("S20-snapshot-chunk-mixing,S20-mixed-chunks-unparsable,S9-snapshot-overlaps-apply")],
         "explanation": "PARTIAL proof. Machine-checked on the three-phase model of InstallSnapshot (enter / wait for the apply loop / restore, exactly the lock structure of the code): a request that is not newer than the node's boundary or applied index changes nothing but term/role/contact; the first phase never touches log, commit or applied index; restore adopts exactly the label (boundary, commit, applied all equal to it, never below the old values) and keeps the log suffix after the label when the log agrees with the label, drops the whole log otherwise; for an honest chunk stream (one snapshot, offsets in order) the received file is exactly the sent bytes (C11_chunks_exact_partial). Cluster level (Proofs/ReplSnapshot.lean): on the replication-layer model of C01 the installation of the snapshot (i, leader's log up to i <= its commit index) at any other node whose term is not ahead is exactly two steps of that model (the request 'previous index 0, entries 1..i' built and accepted: C11_install_is_replication, via install_eq_merge under log matching), so the state after it is reachable and every later state satisfies state-machine safety with it; the installed log starts with the snapshot's prefix (C11_install_preserves_safety); a compaction is invisible at that level given exact snapshots (C10). The unrestricted chunk statement is FALSE of the code (Lean witness C11_counterexample_chunk_mixing, known finding S20: a chunk of another snapshot at the expected offset is accepted). Tie: E3-install (request sequences over the C11 domain vs. the real handler, then AppendEntries/RequestVote probes around the boundary on both), " + CLUSTER_NOTE,
         "assumptions": ["known finding S20 (see known_findings.json)", "the apply loop is idle while phase C runs (the code waits for it)"],
     },
@@ -142,7 +142,7 @@ PROPS = {
         "level": "proof",
         "lean_modules": ["RaftVerif.Properties.C15"],
         "engines": [E4("static", 40, 400), E4("crash", 30, 300), E4("snap", 20, 200), E4D("S15-sole-voter-with-nonvoter,S27-added-member-starves-after-leader-change,S14-snapshot-retransmission-never-ends"), E3_AE],
-        "explanation": "PARTIAL (liveness is outside what the model's theorems carry; only the progress-enabling facts are proved). Machine-checked: the conflict hint a follower returns lets the leader's next index move strictly below the rejected previous index and never below 1 (so the back-off terminates); a sole voter wins its election without any reply, also with non-voters present (after fix S15/S25); a member learned from a configuration entry starts with next index 1 (after fix S27), so its first request is well-formed. The convergence statement itself (after faults stop: one leader, new operations commit, every replica reaches the same applied sequence, restarted/added nodes catch up by log or snapshot) is evaluated by " + CLUSTER_NOTE + ": after every walk all partitions heal, all crashed nodes restart, delivery is prompt, and within a bounded virtual time there must be exactly one leader, a fresh write must complete at it, and every running member must reach the same applied index and hash.",
+        "explanation": "PARTIAL (liveness proper needs the timers and a network that eventually delivers: that part is checked by exploration, not proved). Machine-checked, cluster level (Proofs/ReplProgress.lean): NO reachable state of the replication-layer model is a dead end - from every reachable state (whatever crashes, partitions, lost/duplicated/reordered messages, competing candidates and half-done replications produced it) the continuation a fault-free period allows exists and ends with a voter leading a term above all earlier ones, its whole log (old log plus an entry of the new term) committed, every voter holding the same log, commit index and term (C15_convergence_possible), and every prefix any node had committed before is a prefix of that common log (C15_convergence_keeps_committed). Machine-checked, node level: the conflict hint a follower returns lets the leader's next index move strictly below the rejected previous index and never below 1 (so the back-off terminates); a sole voter wins its election without any reply, also with non-voters present (after fix S15/S25); a member learned from a configuration entry starts with next index 1 (after fix S27), so its first request is well-formed. The convergence statement itself (after faults stop: one leader, new operations commit, every replica reaches the same applied sequence, restarted/added nodes catch up by log or snapshot) is evaluated by " + CLUSTER_NOTE + ": after every walk all partitions heal, all crashed nodes restart, delivery is prompt, and within a bounded virtual time there must be exactly one leader, a fresh write must complete at it, and every running member must reach the same applied index and hash.",
         "assumptions": ["liveness is checked by bounded-time exploration, not by a theorem: a violation is a concrete non-converging schedule; absence of one is not a proof",
                         "under membership churn convergence is only demanded when the running nodes agree on the configuration and a majority of its voters is running"],
     },
@@ -244,6 +244,20 @@ for _p, _d in _DEPS.items():
 for _p, _o in _OWNS.items():
     PROPS[_p]["owns"] = _o
 PROPS["C06"]["engines"] = PROPS["C06"]["engines"] + [E2_LOG]
+# the storages under the protocol: the cluster theorems take "what was appended / persisted is what is read
+# back, also after a compaction, a truncation or a restart" from C12/C13; their engines run with these checks
+STORAGE_NOTE = " The storages the protocol stands on are part of the tie: the E2 engines (operation scripts incl. compact-then-truncate pairs on the real log and the real term/vote and snapshot storages, every crash image reopened) run with this check, and their findings count against it."
+for _p in ("C01", "C03", "C04", "C07"):
+    PROPS[_p]["engines"] = PROPS[_p]["engines"] + [E2_LOG]
+    PROPS[_p]["explanation"] += STORAGE_NOTE
+    PROPS[_p]["deps"] = sorted(set(PROPS[_p].get("deps", []) + ["C12", "C06"]))
+for _p in ("C02", "C10", "C11"):
+    PROPS[_p]["engines"] = PROPS[_p]["engines"] + [E2_SS]
+    PROPS[_p]["explanation"] += STORAGE_NOTE
+    PROPS[_p]["deps"] = sorted(set(PROPS[_p].get("deps", []) + ["C13"]))
+PROPS["C08"]["deps"] = ["C13"]
+PROPS["C08"]["engines"] = PROPS["C08"]["engines"] + [E3_EL, E3_LD, E3_LC, E2_SS]
+PROPS["C08"]["explanation"] += " The candidate's own term bump and self-vote (election(), the sole-voter shortcut, vote replies), the leader's step-down and a restart are covered by E3-election, E3-leader and E3-lifecycle with the same oracle (what is in memory when the section returns is what the last write to the term/vote storage in that section said)." + STORAGE_NOTE
 PROPS["C11"]["engines"] = PROPS["C11"]["engines"] + [E3_AE, E2_LOG]
 E1_TR = {"test": "TestE1Transport", "env": {"quick": {"VERIF_N": 100}, "thorough": {"VERIF_N": 1200}}, "shards": {"quick": 1, "thorough": 4}}
 PROPS["C19"]["engines"] = PROPS["C19"]["engines"] + [E1_TR, E2_LOG, E2_SS]
